@@ -36,7 +36,9 @@ Definition stream_order_ok (c : case) (cs : Z * string) : bool :=
   forallb (fun a => forallb (fun b =>
      match src_ts (e_id (snd a)), src_ts (e_id (snd b)) with
      | Some (ia, ta), Some (ib, tb) =>
-         if N.ltb ta tb then N.ltb (e_ts (snd a)) (e_ts (snd b))
+         (* (a is read no later than b: the stream is time-ordered; a pack that a handler generates itself at its seek time - the
+            drop of a partition listed as dropped at registration - is not a message read from the stream and lies outside this rule) *)
+         if N.ltb ta tb && Nat.leb ia ib then N.ltb (e_ts (snd a)) (e_ts (snd b))
          else if N.eqb ta tb && Nat.eqb ia ib then N.eqb (e_ts (snd a)) (e_ts (snd b))
          else true
      | _, _ => true end) e) e.
